@@ -41,10 +41,11 @@ def mutations(fault, hx, h, total, rnd, tier):
     if k in ("trunc", "flip", "burst"):
         a, b = reg[fault["region"]]
         if b <= a: return []
+        big = total > 1500       # multi-block files (size sweep): one flipped bit per byte (rotating position), sparser bursts
         if k == "trunc": return [{"k": "trunc", "n": n} for n in range(a, b)]
-        if k == "flip": return [{"k": "flip", "bit": bit} for bit in range(8 * a, 8 * b)]
+        if k == "flip": return [{"k": "flip", "bit": bit} for bit in (range(8 * a, 8 * b) if not big or dense else [8 * y + y % 8 for y in range(a, b)])]
         w = fault["width"]
-        offs = range(8 * a, 8 * b) if dense else sorted(set(list(range(8 * a, 8 * b, 8)) + [rnd.randrange(8 * a, 8 * b) for _ in range(6)]))
+        offs = range(8 * a, 8 * b, 1 if not big else 8) if dense else sorted(set(list(range(8 * a, 8 * b, 8 if not big else 8 * 61)) + [rnd.randrange(8 * a, 8 * b) for _ in range(6)]))
         return [{"k": "burst", "bit": o, "w": w, "pat": rnd.getrandbits(32)} for o in offs if o + w <= 8 * total]
     if k == "append":
         return [{"k": "append", "bytes": "00"}, {"k": "append", "bytes": "ff" * 7}, {"k": "append", "bytes": hx[-8:]}]
@@ -182,10 +183,56 @@ def constants_family(rep):
     rep.cov.update({"const_universe_files": ok, "const_universe_value_found": holds, "const_universe_not_compiled": notcompiled})
     return ok
 
+
+SIZE_BOUNDS = [512, 1024, 2048, 4096, 8192, 12288, 16384, 32768, 65536]
+def size_family(rep, tier):
+    """round trip at every file LENGTH around the block sizes a chunked reader / checksum could use: the emitted file of
+    `name := "aaa..."` grows by 8 bytes per 8 characters and by 1 byte per character of the name, so a grid of (name length,
+    string length) sweeps contiguous windows of total lengths across 512 ... 65536 (payload = total - 4 included)"""
+    reqs = []; meta = []
+    bounds = SIZE_BOUNDS if tier != "quick" else SIZE_BOUNDS[:7]
+    # (a) EVERY total length from the smallest file up to ~2 200 (quick) / ~9 000 (thorough) bytes, (b) windows around the block sizes
+    Ls = set(range(0, 1900 if tier == "quick" else 8700, 8))
+    for B in bounds + ([k * 4096 for k in range(5, 16)] if tier != "quick" else []):
+        Ls |= set(range(max(B - 360, 0) // 8 * 8, B - 280, 8))
+    for L in sorted(Ls):
+        for n in range(1, 9):
+            reqs.append({"id": len(reqs), "mode": "bytecode", "stmts": [f'{"s" * n} := "{"a" * L}"'], "want_bytes": True}); meta.append((0, n, L))
+    outs = execpool.run_requests(reqs, nworkers=16, timeout=60, mem_limit_mb=4096)
+    sizes = set(); ok = 0
+    for (B, n, L), req, (resp, oc) in zip(meta, reqs, outs):
+        desc = f'{"s" * n} := "<{L} x a>"'
+        replay = {"stmts": req["stmts"]}
+        if oc != "ok" or not resp:
+            rep.fail(f"C07/roundtrip/size/host-{oc}", f"{desc}: process {oc}", replay); continue
+        if resp.get("interp", {}).get("r") != "ok" or resp.get("compile", {}).get("r") != "ok":
+            rep.fail("C07/roundtrip/size/not-compiled", f"{desc}: interpret/compile failed: {resp.get('interp', {}).get('r')} {resp.get('compile')}", replay); continue
+        total = len(resp.get("hex", "")) // 2
+        near = min(SIZE_BOUNDS, key=lambda b: abs(total - b)); rel = total - near
+        where = f"{near}{rel:+d}" if abs(rel) <= 16 else "other"
+        ld = resp.get("load", {})
+        if ld.get("r") != "ok":
+            rep.fail(f"C07/roundtrip/size/emitted-file-{ld.get('r')}", f"{desc}: the emitted file of {total} bytes ({where}) does not load: {ld}", replay); continue
+        if not (ld.get("reenc", {}).get("r") == "ok" and ld["reenc"].get("eq")):
+            rep.fail("C07/roundtrip/size/reencode", f"{desc}: the emitted file of {total} bytes ({where}) does not re-encode to the same bytes", replay); continue
+        if ld.get("consts", {}).get("r") != "ok":
+            rep.fail("C07/roundtrip/size/constants", f"{desc}: constants of the emitted file of {total} bytes do not decode: {ld.get('consts')}", replay); continue
+        hx = resp["hex"]
+        if zlib.crc32(bytes.fromhex(hx[:-8])) != int.from_bytes(bytes.fromhex(hx[-8:]), "little"):
+            rep.fail("C07/roundtrip/size/crc", f"{desc}: trailer of the {total}-byte file is not the CRC-32 of the payload", replay); continue
+        sizes.add(total); ok += 1
+    covered = {B: sorted(t - B for t in sizes if abs(t - B) <= 12) for B in bounds}
+    full = [B for B in bounds if all(d in covered[B] for d in range(-4, 13))]
+    log(f"[C07] size sweep: {ok}/{len(reqs)} emitted files round-trip; {len(sizes)} distinct file lengths; every length in [B-4, B+12] covered for B in {full}")
+    rep.cov.update({"size_sweep_files": ok, "size_sweep_distinct_lengths": len(sizes), "size_sweep_boundaries_fully_covered": full})
+    return ok
+
 def run(rep, tier, seed):
     rnd = random.Random(seed)
-    nrt = roundtrip_family(rep, tier) + constants_family(rep)
+    nrt = roundtrip_family(rep, tier) + constants_family(rep) + size_family(rep, tier)
     progs = PROGRAMS if tier != "quick" else PROGRAMS[:8]
+    # two multi-block files: payload exactly one 4096-byte block (total 4100) and one crossing 8192 with a partial last block
+    progs = progs + [[f'ss := "{"a" * 3776}"'], [f'sss := "{"b" * 7880}"']]
     reqs = [{"id": i, "mode": "bytecode", "stmts": p, "want_bytes": True} for i, p in enumerate(progs)]
     outs = execpool.run_requests(reqs, nworkers=8, timeout=60, mem_limit_mb=4096)
     files = []
